@@ -13,9 +13,14 @@ FAMILIES = [
 ]
 
 
-def all_programs(chk, depth_values=1, depth_verdict=0, only=None, gen=0):
+def all_programs(chk, depth_values=1, depth_verdict=0, only=None, gen=0, forms=False):
     """gen = n: add n programs of each size of the typed generator spec/MambaGen.tla (family "MambaGen")"""
     cases = []
+    if forms:
+        part = probes.generate_forms(chk)
+        for c in part:
+            c["family"] = "MC_Forms"
+        cases += part
     if gen:
         for size in (1, 2):
             part = probes.generate_gen(chk, gen, size)
